@@ -99,7 +99,7 @@ func findTarShape(p *load.Program) *tarShape {
 					clean = true
 					sh.cleanCall = cl
 				}
-				if ssax.CalleeIs(cl, "strings", "TrimPrefix") {
+				if ssax.CalleeIs(cl, "strings", "TrimPrefix") || ssax.CalleeIs(cl, "strings", "TrimLeft") {
 					if s, ok := ssax.ConstString(cl.Call.Args[1]); ok && s == "/" {
 						trim = true
 					}
@@ -144,7 +144,7 @@ func runC12(c *core.Ctx) {
 	c.Floor("R12.3", 1)
 	c.Floor("R12.4", 1)
 	c.Floor("R12.5", 2)
-	c.Floor("R12.6", 1)
+	c.Floor("R12.6", 2)
 	c.Floor("R12.7", 1)
 	c.Floor("R12.8", 1)
 }
@@ -810,6 +810,34 @@ func r12Normaliser(c *core.Ctx, p *load.Program, sh *tarShape) {
 		}
 	}
 	walk(cl.Call.Args[0], 0)
+	// the leading slashes come off before the name is cleaned: Clean("/../x") is "/x" — the ".." that makes the
+	// entry escape is gone before anyone could refuse it
+	stripsFirst := false
+	var w2 func(v ssa.Value, d int)
+	w2 = func(v ssa.Value, d int) {
+		if d > 4 || stripsFirst {
+			return
+		}
+		if tc, ok := v.(*ssa.Call); ok {
+			if (ssax.CalleeIs(tc, "strings", "TrimLeft") || ssax.CalleeIs(tc, "strings", "TrimPrefix")) && len(tc.Call.Args) == 2 {
+				if sv, isC := ssax.ConstString(tc.Call.Args[1]); isC && sv == "/" {
+					stripsFirst = true
+					return
+				}
+			}
+			for _, a := range tc.Call.Args {
+				w2(a, d+1)
+			}
+		}
+		if ph, ok := v.(*ssa.Phi); ok {
+			for _, e := range ph.Edges {
+				w2(e, d+1)
+			}
+		}
+	}
+	w2(cl.Call.Args[0], 0)
+	c.Check(stripsFirst, "R12.6", fname(fn)+"|strip-before-clean", p.Pos(cl.Pos()), "leading slashes are stripped before path.Clean",
+		fmt.Sprintf("%s cleans the entry name before stripping its leading slashes: path.Clean of a rooted name drops '..' elements at the top ('/../x' becomes '/x'), so a rooted entry that resolves outside the root is unpacked inside it instead of failing the unpack", fname(fn)))
 	c.Check(rooted == "", "R12.6", key, p.Pos(cl.Pos()), "path.Clean is applied to the entry name itself: an escaping name keeps its leading '..' and is refused by the destination",
 		fmt.Sprintf("%s cleans %s: path.Clean of a rooted path drops leading '..' elements, so an entry named '../x' is unpacked as 'x' inside the root instead of making the unpack fail", fname(fn), rooted))
 }
